@@ -425,11 +425,13 @@ def assign_rules(rep, mod, results, tagD, D):
             pass
         inplace += 1
         true_conds = [repr(c) for c, v in r["pc"].items() if v]
-        count_ok = any("adl_distance" in c and "size() const" in c and "'cmp', 'eq'" in c for c in true_conds)
+        # (for D = 1 the number of elements is the size: either spelling is the same guard)
+        count_ok = any("adl_distance" in c and ("size() const" in c or (D == 1 and "num_elements() const" in c)) and "'cmp', 'eq'" in c for c in true_conds)
         empty_range = any(re.search(r"array_iterator::operator==\(array_iterator const&\) const", c) and "('param', 1)" in c and "('param', 2)" in c for c in true_conds)
-        items_ok = any("extensions_t::operator==" in c and "operator*() const" in c and "('param', 1)" in c and "('param', 0)" in c for c in true_conds)
+        ext_eq = re.compile(r"extensions_t::operator==|operator==\(extensions_t const&")      # member (D - 1 = 1) and friend (D - 1 > 1) forms
+        items_ok = any(ext_eq.search(c) and "operator*() const" in c and "('param', 1)" in c and "('param', 0)" in c for c in true_conds)
         # the same guard written as one comparison of whole extents: this->extensions() == distance(first, last) * extensions(*first)
-        whole = any("extensions_t::operator==" in c and "adl_distance" in c and ("operator*() const" in c or D == 1) and "('param', 0)" in c for c in true_conds)
+        whole = any(ext_eq.search(c) and "adl_distance" in c and ("operator*() const" in c or D == 1) and "('param', 0)" in c for c in true_conds)
         if whole:
             continue
         if not count_ok:
@@ -498,7 +500,11 @@ def alloc_rules(rep, mod, results, tagD, pocca, pocma, pocs):
                "copy construction must take select_on_container_copy_construction(other.get_allocator())")
     for n in ("ctor_alloc", "ctor_ext_alloc", "ctor_ext_elem_alloc", "ctor_from_view_alloc", "ctor_from_ref_alloc", "ctor_iters_alloc", "ctor_move_alloc",
               "sctor_alloc", "sctor_ext_alloc", "sctor_ext_elem_alloc", "sctor_from_view_alloc", "sctor_from_ref_alloc", "sctor_iters_alloc"):
-        expect(n, "R10.extalloc", lambda v: "('param'," in repr(v) and "'A0'" not in repr(v), "allocator-extended constructor must use the supplied allocator")
+        # a copy of the allocator argument itself: not of another array's allocator, and not of a value computed from the argument
+        # (select_on_container_copy_construction(alloc) is a different allocator for e.g. polymorphic_allocator)
+        expect(n, "R10.extalloc", lambda v: (isinstance(v, tuple) and len(v) == 3 and v[0] == "alloc-from" and isinstance(v[1], tuple) and v[1][0] == "ref"
+                                             and isinstance(v[1][1], tuple) and v[1][1][0] == "param" and "'A0'" not in repr(v)),
+               "allocator-extended constructor must use the supplied allocator")
     from_other = lambda v: "'A0', 'p1'" in repr(v)      # noqa: E731
     own = lambda v: v == ("A0", "p0")                   # noqa: E731
     expect("assign_copy", "R10.pocca", from_other if pocca else own,
@@ -562,7 +568,7 @@ def alloc_equality_tested(pc):
                for c in pc)
 
 
-def noexcept_sites(mod):
+def noexcept_sites(mod, full=False):
     """(function, may-throw callee) pairs where an exception raised by the callee is routed to std::terminate because the enclosing
     function (or region) is noexcept: invoke whose unwind destination is a terminate landing pad"""
     from . import absint
@@ -582,7 +588,10 @@ def noexcept_sites(mod):
                     continue
                 ub = f.blocks.get(ins.unwind, [])
                 if any(i.op == "call" and i.callee == "__clang_call_terminate" for i in ub):
-                    out.setdefault(absint.short(f.demangled), set()).add(absint.short(m.demangled.get(c, c)))
+                    if full:      # unabbreviated names (template arguments kept): tells instantiations of one member template apart
+                        out.setdefault(f.demangled, set()).add(m.demangled.get(c, c))
+                    else:
+                        out.setdefault(absint.short(f.demangled), set()).add(absint.short(m.demangled.get(c, c)))
     return out
 
 
